@@ -52,6 +52,13 @@ nattrs = z3.Function('nattrs', NS, SEQ_ATTR.sort())
 attr_ns = z3.Function('attr_ns', NS, z3.StringSort(), OPT_STR.sort())       # namespace URI of attribute key k of el
 attr_local = z3.Function('attr_local', NS, z3.StringSort(), OPT_STR.sort())  # local name (None for plain str keys)
 
+# raw attribute values as bs4 stores them (only normalize_value looks inside): an uninterpreted sort
+RAW = TUnint('RawValue')
+RAW_PAIR = TTup(STR, RAW)
+SEQ_RAW = TSeq(RAW_PAIR)
+rattrs = z3.Function('raw_attrs', NS, SEQ_RAW.sort())          # el.attrs.items() in dict order (keys are unique strings)
+norm_raw = z3.Function('normalize', RAW.sort(), ATTRVAL.sort())  # meaning of normalize_value (C08.O1)
+
 NONE = NODE.none
 
 
@@ -151,6 +158,31 @@ def install(world):
     def p_fake_parent(eng, args, st, node):
         return V(NODE, fake_parent_f(node_arg(eng, args[0], node)))
     world.add_prim('fake_parent', p_fake_parent, VT.fake_parent)
+
+    def p_rattrs(eng, args, st, node):
+        return V(SEQ_RAW, rattrs(node_arg(eng, args[0], node)))
+    world.add_prim('rattrs', p_rattrs, VT.rattrs)
+
+    def p_norm(eng, args, st, node):
+        return V(ATTRVAL, norm_raw(eng.coerce(args[0], RAW, node).term))
+    world.add_prim('norm', p_norm, VT.norm)
+
+    def p_as_str(eng, args, st, node):
+        a = args[0]
+        if isinstance(a, VNone):
+            return a
+        if isinstance(a, VPy) and isinstance(a.obj, str):
+            return const_value(a.obj)
+        if isinstance(a, V) and a.t == STR:
+            return a
+        a = eng.coerce(a, OPT_ATTRVAL, node)
+        return V(OPT_STR, z3.If(OPT_ATTRVAL.is_none(a.term), OPT_STR.none(), OPT_STR.some(ATTRVAL.get(OPT_ATTRVAL._dt.val(a.term), 'AStr'))))
+    world.add_prim('as_str', p_as_str, VT.as_str)
+
+    def p_is_str_val(eng, args, st, node):
+        a = eng.coerce(args[0], OPT_ATTRVAL, node)
+        return V(BOOL, z3.Or(OPT_ATTRVAL.is_none(a.term), ATTRVAL.is_alt(OPT_ATTRVAL._dt.val(a.term), 'AStr')))
+    world.add_prim('is_str_val', p_is_str_val, VT.is_str_val)
 
     def p_same(eng, args, st, node):
         return V(BOOL, eng.eq(args[0], args[1], node))
@@ -263,7 +295,13 @@ def install(world):
                 return V(STR, f(text(base.term)))
         if isinstance(base, VPy) and isinstance(base.obj, tuple) and base.obj and base.obj[0] == 'attrs':
             if attr == 'items':
-                return V(SEQ_ATTR, nattrs_raw_marker(base.obj[1]))
+                return V(SEQ_RAW, rattrs(base.obj[1]))
+            if attr == '__getitem__':
+                k = eng.coerce(args[0], STR, node)
+                i = world.specs['raw_index'].declare()(rattrs(base.obj[1]), k.term, z3.IntVal(0))
+                eng.may_raise(st, 'KeyError', i < 0, 'el.attrs[name]')
+                st.pc.append(z3.Implies(i >= 0, i < z3.Length(rattrs(base.obj[1]))))
+                return V(RAW, RAW_PAIR.get(rattrs(base.obj[1])[i], 1))
         return NotImplemented
     world.method_rules.append(method_rule)
 
